@@ -16,7 +16,7 @@ run_demo() {
     ( cd $WT && cargo test --offline -p $crate --test zz_seed_demo 2>&1 | grep -E "^test result|error(\[|:)" | head -3 )
     rm -f $crate/tests/zz_seed_demo.rs
   else
-    ( cd $WT && cargo build --offline 2>&1 | grep -E "^error" | head -3; A1="$WT"; grep -q 'SLICEC=${1' "$demo_sh" && A1="$WT/target/debug/slicec"; SLICEC=$WT/target/debug/slicec WT=$WT bash "$demo_sh" "$A1" >/tmp/seedv-demo.out 2>&1; echo "demo.sh exit=$?"; tail -2 /tmp/seedv-demo.out | cut -c1-160 )
+    ( cd $WT && cargo build --offline 2>&1 | grep -E "^error" | head -3; A1="$WT"; grep -Eq 'SLICEC="?\$\{1' "$demo_sh" && A1="$WT/target/debug/slicec"; SLICEC=$WT/target/debug/slicec WT=$WT bash "$demo_sh" "$A1" >/tmp/seedv-demo.out 2>&1; echo "demo.sh exit=$?"; tail -2 /tmp/seedv-demo.out | cut -c1-160 )
   fi
 }
 echo "--- demo on clean tree:"; CLEAN=$(run_demo); echo "$CLEAN"
